@@ -34,6 +34,8 @@ class Line:
         self.closed = False
         self.on_frame = None  # harness hook: called with the index of each frame once armed
         self.on_protocol_error = None  # set by the wire stack: models the transport's _fatal_error()
+        self.dup_in_one_read = False  # "dup" faults: both copies in a single read instead of two
+        self._co = {"h2n": {"data": b"", "when": None}, "n2h": {"data": b"", "when": None}}
 
     # -- fault decision -------------------------------------------------------------------
     def _fault(self):
@@ -94,7 +96,23 @@ class Line:
         if fault == "stall":
             when += self.stall
         # "dup": the copy arrives in a read of its own; "dup1": both copies arrive in one read
-        units = [data, data] if fault == "dup" else [data + data] if fault == "dup1" else [data]
+        if fault == "dup" and self.dup_in_one_read:
+            fault_units = [data + data]
+        else:
+            fault_units = [data, data] if fault == "dup" else [data + data] if fault == "dup1" else [data]
+        units = fault_units
+        if self.chunking == "coalesce" and fault != "stall":
+            # what a serial driver does under load: everything that arrived within a short window
+            # is handed over in ONE read (FIFO order kept)
+            buf = self._co[direction]
+            buf["data"] += b"".join(units)
+            if buf["when"] is None:
+                buf["when"] = when + 0.002
+                self.loop.io_at(buf["when"], self._flush, direction)
+            # (a stalled frame is not coalesced: it is handed over on its own, after whatever is
+            # buffered before it and before whatever comes after it - FIFO with a bounded stall)
+            self.free_at[direction] = max(self.free_at[direction], buf["when"])
+            return
         for u in units:
             chunks = [u] if self.chunking == "whole" else [u[i:i + 1] for i in range(len(u))]
             if self.chunking == "split2" and len(u) > 1:
@@ -104,6 +122,16 @@ class Line:
                 self.loop.io_at(when, self._deliver, direction, c)
                 when += 1e-6
         self.free_at[direction] = when
+
+    def _flush(self, direction):
+        buf = self._co[direction]
+        if buf["when"] is not None and buf["when"] > self.loop.time() + 1e-9:
+            # a stall moved the hand-over time: try again then
+            self.loop.io_at(buf["when"], self._flush, direction)
+            return
+        data, buf["data"], buf["when"] = buf["data"], b"", None
+        if data:
+            self._deliver(direction, data)
 
     def _deliver(self, direction, chunk):
         if self.closed:
